@@ -101,6 +101,18 @@ def process_data(chk, pid):
     detail = short(v, 200)
     if v[0] == "call" and v[1] in ("pd.concat", "pandas.concat") and v[2] and v[2][0][0] == "list" and len(v[2][0]) == 3:
         first, second = v[2][0][1], v[2][0][2]
+        while first[0] == "ite":
+            # a helper shared with the additional data may branch on the kind of object: the price data is a frame
+            cond = first[1]
+            if cond[0] == "call" and cond[1] == "isinstance" and len(cond[2]) == 2 and canon(cond[2][0]) == canon(data) and cond[2][1][0] in ("func", "mod", "attr"):
+                kind = repr(cond[2][1])
+                if "Series" in kind and "DataFrame" not in kind:
+                    first = first[3]
+                    continue
+                if "DataFrame" in kind and "Series" not in kind:
+                    first = first[2]
+                    continue
+            break
         if canon(second) == canon(data) and first[0] == "call" and first[1] in ("pd.DataFrame", "pandas.DataFrame"):
             kw = dict(first[3])
             idx = kw.get("index")
